@@ -433,7 +433,9 @@ impl Engine {
                             failure_persistence: None,
                             source_file: None,
                             test_name: None,
-                            max_shrink_time: 0,
+                            // shrinking is best effort: a failing case that is expensive to re-run (non-termination guards)
+                            // must not turn a detection into an hour of shrinking
+                            max_shrink_time: 45_000,
                             max_shrink_iters: cfg.max_shrink_iters,
                             max_default_size_range: 100,
                             verbose: 0,
